@@ -83,7 +83,7 @@ func c05Run(c *core.Ctx) bool {
 	cov := map[string]any{
 		"evaluations":         res.Evaluations,
 		"distinct_nontrivial": distinct,
-		"rule":                fmt.Sprintf("every subset of the %d-path pool is materialised as a directory tree (%d trees); one spokfile holds %d glob patterns as dependencies and outputs; the real loader + Run expand them (twice, on fresh SpokFile values) and the public Globs map is compared per pattern with a reference matcher run over a full directory walk (following links to files and to directories); the pool holds a link to a file, a link to a directory and a name containing '..'; the project directory's own name cycles through plain, '[1]', '{old}', '*?' and a blank. evaluations = (tree, pattern) pairs judged; non-trivial = distinct (tree, pattern) pairs whose reference denotation is non-empty", len(pool), total, len(pats)),
+		"rule":                fmt.Sprintf("every subset of the %d-path pool is materialised as a directory tree (%d trees); one spokfile holds %d glob patterns as dependencies and outputs; the real loader + Run expand them (twice, on fresh SpokFile values) and the public Globs map is compared per pattern with a reference matcher run over a full directory walk (following links to files and to directories); the pool holds a link to a file, a link to a directory and a name containing '..'; a third of the trees hold a valid CACHEDIR.TAG in src/, a quarter a .gitignore and a lib/.ignore that name pool files; the project directory's own name cycles through plain, '[1]', '{old}', '*?' and a blank. evaluations = (tree, pattern) pairs judged; non-trivial = distinct (tree, pattern) pairs whose reference denotation is non-empty", len(pool), total, len(pats)),
 		"samples":             res.Samples,
 		"counters":            res.Counters,
 		"pool":                pool,
@@ -176,6 +176,15 @@ func c05Judge(root string, cs c05case, res *core.ShardResult) (vs []core.Violati
 	_ = os.MkdirAll(root, 0o755)
 	if err := core.WriteFiles(root, files); err != nil {
 		core.Fatal("c05: %v", err)
+	}
+	// marker files that other tools give a meaning to; to a glob they are files like any other
+	if cs.Mask%3 == 1 {
+		_ = core.WriteFiles(root, map[string]string{"src/CACHEDIR.TAG": "Signature: 8a477f597d28d172789f06886806bc55\n# This file is a cache directory tag.\n"})
+		res.Count("trees_with_a_cachedir_tag", 1)
+	}
+	if cs.Mask%4 == 2 {
+		_ = core.WriteFiles(root, map[string]string{".gitignore": "src/\n*.ts\nlib\nzz.js\n", "lib/.ignore": "*\n"})
+		res.Count("trees_with_ignore_files", 1)
 	}
 	for _, l := range links {
 		// dangling whenever the target is not part of the tree; "ld" links to the directory src, whose
